@@ -1,4 +1,4 @@
 SPECIFICATION Spec
 CONSTANTS
-  SDev = {}
+  SDev = {"EnvFullWrites"}
 CHECK_DEADLOCK FALSE
